@@ -157,6 +157,7 @@ def valid_path(ap, seq, fine_needs_leap=True):
     for cls, i in nav:
         navd.setdefault(cls, []).append(i)
     leapt = False
+    leaps = []
     for x, y in zip(seq, seq[1:]):
         if y == x + 1:
             continue
@@ -172,12 +173,17 @@ def valid_path(ap, seq, fine_needs_leap=True):
             ok = True  # skip an ending to a later ending
         if b in navd.get("DaCapo", []) and y == 0:
             ok = True
+            leaps.append(("DaCapo", b))
         if b in navd.get("DalSegno", []) and y in navd.get("Segno", []):
             ok = True
+            leaps.append(("DalSegno", b))
         if b in navd.get("ToCoda", []) and y in navd.get("Coda", []):
             ok = True
         if not ok:
             return "jump from measure %d to measure %d is not marked" % (x, y)
+    for lp in set(leaps):
+        if leaps.count(lp) > 1:
+            return "the %s after measure %d is taken %d times" % (lp[0], lp[1] - 1, leaps.count(lp))
     last = seq[-1]
     if last != n - 1 and (last + 1) not in navd.get("Fine", []):
         return "ends after measure %d, which is neither the last measure nor a Fine" % last
